@@ -386,6 +386,9 @@ def execute(program, ctx, mode):
     from zope.interface.adapter import AdapterRegistry, VerifyingAdapterRegistry
 
     props = set(mode.get('props') or ['C04', 'C05', 'C06', 'C07', 'C08', 'C09'])
+    # swarm knob (one world in four): one of the names is not in Unicode normal form C ("e" + combining acute, as file systems
+    # and browsers produce) -- a name is a key as it stands, in every method alike
+    NAMES = ['', 'a', 'e\u0301' if h64(program.get('seed') or 0, 'non-nfc-name') % 4 == 0 else 'b']
     W = program['world']
     probe_p = W.get('probe_p', 30)
     calls = []
